@@ -15,6 +15,8 @@ class LoopC:
         self.ghost_end = []       # ghost assignments executed at the end of every iteration
         self.ghost_begin = []     # ... at the start of every iteration (after the target is bound)
         self.hints = []           # proved-then-assumed at the end of an iteration, before the invariant
+        self.uses_end = []
+        self.uses_init = []
         self.env_driven = False   # termination is not claimed (consumer / worker loops)
         self.class_invariant = False   # the class invariant of self is part of the loop invariant
 
@@ -38,6 +40,16 @@ class LoopC:
         self.hints.append(expr)
         return self
 
+    def use_at_init(self, expr):
+        """lemma / definition instance assumed just before the loop is entered"""
+        self.uses_init.append(expr)
+        return self
+
+    def use_at_end(self, expr):
+        """lemma / definition instance assumed at the end of every iteration (lemma_inst(...) or unfold(...) only)"""
+        self.uses_end.append(expr)
+        return self
+
     def environment_driven(self):
         self.env_driven = True
         return self
@@ -58,6 +70,7 @@ class FuncC:
         self.ghost_exit_l = []
         self.ghost_entry_l = []
         self.hints_l = []            # (anchor, expr)
+        self.uses_exit = []
         self.trusted = kw.get("trusted", False)      # no body verified: assumed (environment / library)
         self.verify = kw.get("verify", True) and not self.trusted
         self.inv_pre = kw.get("inv_pre", None)       # None -> default by kind
@@ -116,6 +129,23 @@ class FuncC:
         self.default_exprs[param] = expr
         return self
 
+    def at_call(self, when, callee, ghost=None, use=None):
+        """ghost assignment / lemma instance attached to the calls of `callee` (label = method name) in this function:
+        when = 'before' | 'after'"""
+        if not hasattr(self, "call_hooks"):
+            self.call_hooks = {}
+        lst = self.call_hooks.setdefault((when, callee), [])
+        if ghost:
+            lst.append(("ghost", ghost))
+        if use:
+            lst.append(("use", use))
+        return self
+
+    def use_exit(self, expr):
+        """instance of a proved lemma / of a recursive definition assumed at the normal exit (lemma_inst(...) or unfold(...) only)"""
+        self.uses_exit.append(expr)
+        return self
+
     def hint_exit(self, expr, label=None):
         """intermediate assertion at the normal exit: proved first, then available to the postconditions"""
         self.hints_l.append((expr, label or "hint%d" % len(self.hints_l)))
@@ -144,6 +174,11 @@ class ClassC:
 
     def invariant(self, expr, label=None):
         self.invariants.append((expr, label or "inv%d" % len(self.invariants)))
+        return self
+
+    def guarded(self, field, cond, label=None):
+        """code may read or write `field` only while `cond` holds (e.g. while the monitor lock is held): obligation guarded-access@L"""
+        self.unit.guards[(self.name, field)] = (cond, label or "guarded-access")
         return self
 
     def method(self, name, params=None, returns=NONE, **kw):
@@ -191,7 +226,10 @@ class Unit:
         self.macros = {}          # name -> (params, expr string)
         self.axioms = []          # (expr string, label)
         self.var_sorts = {}       # binder name -> sort (for quantifiers over non-Int)
-        self.lemmas = []          # FuncC-like ghost procedures
+        self.lemmas = []          # lemmas proved by induction
+        self.rec_defs = {}        # name -> (params, defining equation)
+        self.guards = {}          # (class, field) -> (condition, label)
+        self.interference = None  # thread-modular environment step (DESIGN §5): see interfere()
         self.env = {}             # dotted name -> trusted FuncC (library functions)
         self.assumptions = []     # free text, goes to the evidence
         self.targets = []         # (class or None, function name) to verify, in order
@@ -215,6 +253,29 @@ class Unit:
 
     def var(self, name, sort):
         self.var_sorts[name] = sort
+
+    def interfere(self, cls, when, modifies, ensures):
+        """environment step of other processes / threads (rely): whenever code of class `cls` is about to call into the environment
+        (library / trusted function, lock operation) - and right after releasing a lock - while `when` holds, the locations in
+        `modifies` are havocked and `ensures` (two-state: old = before the step) is assumed"""
+        self.interference = {"cls": cls, "when": when, "modifies": list(modifies), "ensures": list(ensures)}
+
+    def rec_def(self, name, params, expr):
+        """defining equation of a recursive spec function (recursion on an Int argument that decreases to 0: a conservative
+        definition).  It is never given to the solver as a quantified axiom (recursive definitions make E-matching loop); ground
+        instances are assumed explicitly with unfold('name', args...) in lemmas / use-clauses."""
+        self.rec_defs[name] = (list(params), expr)
+
+    def lemma(self, name, params, requires, ensures, induct, generalize=(), trigger=None, unfold=()):
+        """a lemma proved by induction on the Int parameter `induct` (base: induct <= 0, step: from induct-1, the induction
+        hypothesis being universally quantified over the parameters in `generalize`); once its two obligations are discharged it
+        is available as the axiom  forall params. requires -> ensures  wherever a spec function it mentions is used"""
+        for p, srt in params.items():
+            self.var_sorts[p] = srt
+        self.lemmas.append({"name": name, "params": dict(params), "requires": list(requires), "ensures": list(ensures),
+                            "induct": induct, "generalize": list(generalize), "unfold": list(unfold)})
+        # proved lemmas are not turned into quantified axioms; they are instantiated explicitly with lemma_inst('name', args...)
+        self.targets.append(("lemma:", name, None))
 
     def library(self, dotted, params=None, returns=NONE, **kw):
         fc = FuncC(self, None, None, dotted, params, returns, trusted=True, **kw)
